@@ -1,7 +1,7 @@
 """C09  Deb822 mappings stay ordered, case-insensitive, case-preserving in any history.
 
-B-09 bounded stand-in (the LinkedList / OrderedSet / Deb822Dict contracts of DESIGN §5 C09 are not
-generated yet): operation histories on real Deb822 objects against a reference list model
+P-09a/b (proved): LinkedList and OrderedSet of debian._util against an abstract sequence (see below).
+B-09 bounded stand-in (the Deb822Dict layer is not under contract): operation histories on real Deb822 objects against a reference list model
 [(spelling, value)], starting from empty, dict-initialised, sequence-initialised and parsed
 paragraphs; after every operation keys(), their spelling, order, values, len, membership (all case
 variants) are compared; error cases must raise KeyError / ValueError and leave the mapping unchanged.
@@ -112,7 +112,8 @@ class LLAppend(LLContract):
     ghost_final = (("self.ns", "result if i == old(self.n) else old(self.ns)[i]"), ("self.n", "old(self.n) + 1"),
                    ("self.pos", "old(self.n) if i is result else old(self.pos)[i]"))
     ensures = LL_INV + ("self.n == old(self.n) + 1", "self.ns[old(self.n)] is result", "not old(allocated(result))",
-                        "forall(i, 0, old(self.n), self.ns[i] is old(self.ns)[i])", "result.value == value", VALUES_KEPT)
+                        "forall(i, 0, old(self.n), self.ns[i] is old(self.ns)[i])", "result.value == value", VALUES_KEPT,
+                        "forall_any(r, self.pos[r] == (old(self.n) if r is result else old(self.pos)[r]))")
 
     def setup(self, ex):
         return {"self": _ll(ex), "value": fresh(ITEM, "value")}
@@ -120,8 +121,9 @@ class LLAppend(LLContract):
 
 INS_AT = "new_node if i == {k} else (old(self.ns)[i] if i < {k} else old(self.ns)[i - 1])"
 POS_INS = "{k} if i is new_node else (old(self.pos)[i] + 1 if old(self.pos)[i] >= {k} else old(self.pos)[i])"
+POS_INS_ALL = "forall_any(r, self.pos[r] == ({k} if r is {new} else (old(self.pos)[r] + 1 if old(self.pos)[r] >= {k} else old(self.pos)[r])))"
 INSERTED = ("self.n == old(self.n) + 1", "forall(i, 0, {k}, self.ns[i] is old(self.ns)[i])", "self.ns[{k}] is {new}",
-            "forall(i, {k} + 1, self.n, self.ns[i] is old(self.ns)[i - 1])")
+            "forall(i, {k} + 1, self.n, self.ns[i] is old(self.ns)[i - 1])", POS_INS_ALL)
 NEW_NODE_OK = ("allocated(new_node)", "new_node.next_node is None and new_node._previous_node is None",
                "forall(i, 0, self.n, self.ns[i] is not new_node)")
 
@@ -160,7 +162,8 @@ class LLRemoveNode(LLContract):
                    ("self.pos", "old(self.pos)[i] - 1 if old(self.pos)[i] > %s else old(self.pos)[i]" % KN))
     ensures = LL_INV + ("self.n == old(self.n) - 1", "forall(i, 0, %s, self.ns[i] is old(self.ns)[i])" % KN,
                         "forall(i, %s, self.n, self.ns[i] is old(self.ns)[i + 1])" % KN,
-                        "node.next_node is None and node._previous_node is None", "node.value == old(node.value)", VALUES_KEPT)
+                        "node.next_node is None and node._previous_node is None", "node.value == old(node.value)", VALUES_KEPT,
+                        "forall_any(r, self.pos[r] == (old(self.pos)[r] - 1 if old(self.pos)[r] > %s else old(self.pos)[r]))" % KN)
 
     def setup(self, ex):
         return {"self": _ll(ex), "node": fresh(NODE, "node")}
@@ -172,7 +175,8 @@ class LLInsertAtHead(LLContract):
     ghost_final = (("self.ns", "result if i == 0 else old(self.ns)[i - 1]"), ("self.n", "old(self.n) + 1"),
                    ("self.pos", "0 if i is result else old(self.pos)[i] + 1"))
     ensures = LL_INV + ("self.n == old(self.n) + 1", "self.ns[0] is result", "not old(allocated(result))",
-                        "forall(i, 1, self.n, self.ns[i] is old(self.ns)[i - 1])", "result.value == value", VALUES_KEPT)
+                        "forall(i, 1, self.n, self.ns[i] is old(self.ns)[i - 1])", "result.value == value", VALUES_KEPT,
+                        "forall_any(r, self.pos[r] == (0 if r is result else old(self.pos)[r] + 1))")
 
     def setup(self, ex):
         return {"self": _ll(ex), "value": fresh(ITEM, "value")}
@@ -226,6 +230,151 @@ class LLPop(LLContract):
         return {"self": _ll(ex)}
 
 
+# ------------------------------------------------------------------------------------------------
+# P-09b  OrderedSet against the same abstraction, relative to the LinkedList contracts above (modular calls).
+L = "self._OrderedSet__order"
+T = "self._OrderedSet__table"
+VAL = L + ".ns[i].value"
+OS_INV = tuple(x.replace("self.", L + ".") for x in LL_INV) + (
+    "forall(i, 0, %s.n, (%s in %s) and %s[%s] is %s.ns[i])" % (L, VAL, T, T, VAL, L),
+) + tuple("forall_any(s, implies(s in %s, %s))" % (T, x.replace("self.", L + ".").replace("@T", T)) for x in (
+    "0 <= self.pos[@T[s]] and self.pos[@T[s]] < self.n", "self.ns[self.pos[@T[s]]] is @T[s]", "@T[s].value == s"))
+OS_MOD = (T,) + tuple(m.replace("self.", L + ".") if m.startswith("self.") else m for m in LLContract.modifies)
+OLDV = "old(old(%s.ns)[{i}].value)" % L                 # the item at index {i} of the old sequence
+KEYS_SAME = "forall_any(s, (s in %s) == old(s in %s))" % (T, T)
+A = "old(%s.pos[%s[item]])" % (L, T)                    # old index of `item`
+B_ = "old(%s.pos[%s[reference_item]])" % (L, T)         # old index of `reference_item`
+
+
+def _os(ex):
+    from vf.pyvc.values import DictVal, empty_dict
+    d = empty_dict(ITEM, NODE)
+    table = VBox("dict", DictVal(d.kty, d.vty, z3.Const(fresh_name("table_keys"), d.keys.sort()),
+                                 z3.Const(fresh_name("table_vals"), d.vals.sort())), "table")
+    return VObj("OrderedSet", {"_OrderedSet__table": table, "_OrderedSet__order": _ll(ex, "order")}, "self")
+
+
+class OSContract(Contract):
+    modular = False
+    requires = OS_INV
+    modifies = OS_MOD
+    solver_budget = 40        # slowest obligation on the unchanged tree: 8 s
+
+    def setup(self, ex):
+        return {"self": _os(ex), "item": fresh(ITEM, "item")}
+
+
+class OSContains(OSContract):
+    target = UT + ":OrderedSet.__contains__"
+    modifies = ()
+    ensures = ("result == (item in %s)" % T,)
+
+
+class OSLen(OSContract):
+    target = UT + ":OrderedSet.__len__"
+    modifies = ()
+    ensures = ("result == %s.n" % L,)
+
+    def setup(self, ex):
+        return {"self": _os(ex)}
+
+
+class OSAdd(OSContract):
+    target = UT + ":OrderedSet.add"
+    ensures = OS_INV + (
+        "implies(old(item in %s), %s.n == old(%s.n) and forall(i, 0, %s.n, %s == %s))" % (T, L, L, L, VAL, OLDV.format(i="i")),
+        "implies(not old(item in %s), %s.n == old(%s.n) + 1 and %s.ns[old(%s.n)].value == item and "
+        "forall(i, 0, old(%s.n), %s == %s))" % (T, L, L, L, L, L, VAL, OLDV.format(i="i")),
+        "item in %s" % T, "forall_any(s, implies(s != item, (s in %s) == old(s in %s)))" % (T, T))
+
+
+class OSRemove(OSContract):
+    target = UT + ":OrderedSet.remove"
+    ensures = OS_INV + (
+        "%s.n == old(%s.n) - 1" % (L, L),
+        "forall(i, 0, %s, %s == %s)" % (A, VAL, OLDV.format(i="i")),
+        "forall(i, %s, %s.n, %s == %s)" % (A, L, VAL, OLDV.format(i="i + 1")),
+        "item not in %s" % T, "forall_any(s, implies(s != item, (s in %s) == old(s in %s)))" % (T, T))
+    raises = {"KeyError": ("item not in %s" % T,)}
+    raises_modifies = {"KeyError": ()}
+
+
+class OSOrderLast(OSContract):
+    target = UT + ":OrderedSet.order_last"
+    ensures = OS_INV + (
+        "%s.n == old(%s.n)" % (L, L), KEYS_SAME,
+        "forall(i, 0, %s, %s == %s)" % (A, VAL, OLDV.format(i="i")),
+        "forall(i, %s, %s.n - 1, %s == %s)" % (A, L, VAL, OLDV.format(i="i + 1")),
+        "%s.ns[%s.n - 1].value == item" % (L, L))
+    raises = {"KeyError": ("item not in %s" % T,)}
+    raises_modifies = {"KeyError": ()}
+
+
+class OSOrderFirst(OSContract):
+    target = UT + ":OrderedSet.order_first"
+    ensures = OS_INV + (
+        "%s.n == old(%s.n)" % (L, L), KEYS_SAME,
+        "%s.ns[0].value == item" % L,
+        "forall(i, 1, %s + 1, %s == %s)" % (A, VAL, OLDV.format(i="i - 1")),
+        "forall(i, %s + 1, %s.n, %s == %s)" % (A, L, VAL, OLDV.format(i="i")))
+    raises = {"KeyError": ("item not in %s" % T,)}
+    raises_modifies = {"KeyError": ()}
+
+
+REL_RAISES = {"ValueError": ("item == reference_item",),
+              "KeyError": ("item != reference_item", "(reference_item not in %s) or (item not in %s)" % (T, T))}
+
+
+def _cases(lt, gt):
+    """one clause per consequent: implies(a < b, X) ... implies(a > b, Y) ..."""
+    return tuple("implies(%s < %s, %s)" % (A, B_, x) for x in lt) + tuple("implies(%s > %s, %s)" % (A, B_, x) for x in gt)
+
+
+class OSOrderBefore(OSContract):
+    """afterwards `item` sits directly before `reference_item`; everything else keeps its relative order"""
+    target = UT + ":OrderedSet.order_before"
+    ensures = OS_INV + ("%s.n == old(%s.n)" % (L, L), KEYS_SAME) + _cases(
+        # item was before the reference: the items between them move one place to the front
+        ("forall(i, 0, %s, %s == %s)" % (A, VAL, OLDV.format(i="i")),
+         "forall(i, %s, %s - 1, %s == %s)" % (A, B_, VAL, OLDV.format(i="i + 1")),
+         "%s.ns[%s - 1].value == item" % (L, B_),
+         "forall(i, %s, %s.n, %s == %s)" % (B_, L, VAL, OLDV.format(i="i"))),
+        # item was after the reference: the items from the reference up to it move one place to the back
+        ("forall(i, 0, %s, %s == %s)" % (B_, VAL, OLDV.format(i="i")),
+         "%s.ns[%s].value == item" % (L, B_),
+         "forall(i, %s + 1, %s + 1, %s == %s)" % (B_, A, VAL, OLDV.format(i="i - 1")),
+         "forall(i, %s + 1, %s.n, %s == %s)" % (A, L, VAL, OLDV.format(i="i"))))
+    raises = REL_RAISES
+    raises_modifies = {"ValueError": (), "KeyError": ()}
+
+    def setup(self, ex):
+        return {"self": _os(ex), "item": fresh(ITEM, "item"), "reference_item": fresh(ITEM, "reference_item")}
+
+
+class OSOrderAfter(OSOrderBefore):
+    """afterwards `item` sits directly after `reference_item`"""
+    target = UT + ":OrderedSet.order_after"
+    ensures = OS_INV + ("%s.n == old(%s.n)" % (L, L), KEYS_SAME) + _cases(
+        ("forall(i, 0, %s, %s == %s)" % (A, VAL, OLDV.format(i="i")),
+         "forall(i, %s, %s, %s == %s)" % (A, B_, VAL, OLDV.format(i="i + 1")),
+         "%s.ns[%s].value == item" % (L, B_),
+         "forall(i, %s + 1, %s.n, %s == %s)" % (B_, L, VAL, OLDV.format(i="i"))),
+        ("forall(i, 0, %s + 1, %s == %s)" % (B_, VAL, OLDV.format(i="i")),
+         "%s.ns[%s + 1].value == item" % (L, B_),
+         "forall(i, %s + 2, %s + 1, %s == %s)" % (B_, A, VAL, OLDV.format(i="i - 1")),
+         "forall(i, %s + 1, %s.n, %s == %s)" % (A, L, VAL, OLDV.format(i="i"))))
+
+
+def build_world_os():
+    w = build_world_ll()
+    for cls in (LLAppend, LLInsertNodeBefore, LLInsertNodeAfter, LLRemoveNode, LLInsertAtHead, LLInsertBefore, LLInsertAfter,
+                LLLen, LLBool, LLPop):
+        c = cls()
+        c.modular = True
+        w.add_contract(c)
+    return w
+
+
 def build_world_ll():
     sl = SpecLib()
     w = World(sl)
@@ -238,6 +387,11 @@ def run_deductive(ctx):
     cs = [LLAppend(), LLInsertNodeBefore(), LLInsertNodeAfter(), LLRemoveNode(), LLInsertAtHead(), LLInsertBefore(),
           LLInsertAfter(), LLLen(), LLBool(), LLPop()]
     verify_contracts(ctx, w, cs, {})
+    w2 = build_world_os()
+    verify_contracts(ctx, w2, [OSContains(), OSLen(), OSAdd(), OSRemove(), OSOrderLast(), OSOrderFirst(), OSOrderBefore(),
+                               OSOrderAfter()], {})
+    ctx.assumptions.append("the items of OrderedSet / LinkedList are modelled as opaque values with == and hashing only (mathematical "
+                           "integers): the containers are generic in the item type")
     ctx.assumptions.append("weak references are dereferenced as the object itself: referents are assumed to be alive (nodes are "
                            "kept alive by the next_node chain from the list head)")
     ctx.solve()
@@ -373,9 +527,18 @@ def run(ctx):
         t.case(key=str(ops), sample=ops if len(ops) > 4 else None)
     t.done()
     ctx.level = "other"
-    ctx.explanation = ("BOUNDED ONLY in this revision: seeded operation histories against a reference list model; the "
-                       "representation-invariant proofs for LinkedList/OrderedSet/Deb822Dict planned in DESIGN §5 C09 are not "
-                       "generated yet.")
+    ctx.explanation = ("PROVED from the AST of the real debian._util (array heap for nodes, ghost node sequence + position map, "
+                       "quantified representation invariant; AUFLIA obligations, each confirmed by two back ends): every LinkedList "
+                       "operation (append, insert_at_head, insert_before/after, insert_node_before/after, remove_node, pop, __len__, "
+                       "__bool__) preserves the doubly-linked-list invariant and changes the abstract sequence exactly as a list "
+                       "insert / delete at the stated index, leaving all other node values alone; every OrderedSet operation (add, "
+                       "remove, __contains__, __len__, order_first / order_last / order_before / order_after with _reorder inlined) "
+                       "preserves 'table and list hold the same items, each once' and realises the reference list model: membership "
+                       "unchanged by re-ordering, the item moved to the stated place, every other item keeping its relative order; "
+                       "KeyError / ValueError exactly in the stated cases with nothing modified. NOT proved: the iteration "
+                       "generators, OrderedSet.extend, and the Deb822Dict layer on top (case-insensitive key objects, value "
+                       "dictionary, sort_fields, copy) - BOUNDED part: operation histories on real Deb822 mappings against a "
+                       "reference list model.")
 
 
 def replay(ctx, data):
